@@ -211,10 +211,12 @@ func (mt *MarkdownTable) emitRow(
 			return err
 		}
 	}
-	if _, err := fmt.Fprint(w, mt.mdPaddedCellEscape(cells, widths, alignments, i), barRight); err != nil {
-		return err
+	if max > 0 {
+		if _, err := fmt.Fprint(w, mt.mdPaddedCellEscape(cells, widths, alignments, i), barRight); err != nil {
+			return err
+		}
+		i++
 	}
-	i++
 	for ; i < columnCount; i++ {
 		// these are the extra columns, always have one whitespace before bar
 		if _, err := io.WriteString(w, " |"); err != nil {
